@@ -51,7 +51,16 @@ def r01_1(ctx):
             r.ok({"site": b.where(bi), "cut_by": ["tsn - cum_ack != 0", "tsn - cum_ack <= 2^31 (serial)"]})
     ins = [(bi, t) for bi, t, p in core.calls_to(b, suffix("BTreeMap::<K, V, A>::insert", "HashMap::<K, V, S, A>::insert"))
            if mir.has(b.term_operand(t["a"][0]), lambda x: x[0] == "field" and x[2] == "received_queue")]
-    r.need("received_queue.insert sites", len(ins), 1)
+    # `entry(tsn).or_insert(..)` keeps the first copy: as good as the already-buffered test for delivery (not for the
+    # window accounting - R01.15)
+    keep_first = [(bi, t) for bi, t, p in b.calls() if p and p.split("::")[-1] in ("or_insert", "or_insert_with") and t["a"] and
+                  mir.has(b.term_operand(t["a"][0]), lambda x: x[0] == "call" and x[1].endswith("::entry") and mir.has_field(x, "received_queue"))]
+    r.need("received_queue insert sites", len(ins) + len(keep_first), 1)
+    for bi, t in keep_first:
+        if not g1 or core.k1(b, [bi], g1)[bi] is None:
+            r.ok({"site": b.where(bi), "buffered": "entry().or_insert keeps the first copy of a TSN"})
+        else:
+            r.violate(HD, "insert:received_queue", b.where(bi), "out-of-order chunk buffered without the duplicate-TSN test")
 
     def absent(term, meaning, *_):
         if term[0] == "call" and term[1].endswith("::contains_key") and mir.has_field(term[2][0], "received_queue") and meaning is False:
@@ -260,7 +269,9 @@ def r01_6(ctx):
             n += 1
             m = p.split("::")[-1]
             site = "call:%s" % m
-            if m == "insert":
+            if m in ("entry", "or_insert", "or_insert_with") and b.name == HD:
+                r.ok({"site": b.where(bi), "op": "keyed access (%s)" % m})      # by key, not by position
+            elif m == "insert":
                 if b.name == HD:
                     r.ok({"site": b.where(bi), "op": "insert(tsn, ..)"})
                 else:
@@ -660,5 +671,41 @@ def r01_14(ctx):
     return r
 
 
+def r01_15(ctx):
+    """receive-window credit is charged when a chunk ENTERS the reorder buffer and given back when it leaves (R13.8). The
+    same TSN can arrive many times while it waits there (duplicated datagrams, the sender's T3 / probe retransmissions
+    after lost SACKs). If every copy is charged but only the one buffered chunk is ever credited back, the advertised
+    window shrinks for good and ends at 0 with an empty buffer; the sender has no zero-window probe, so the channel
+    stops: 'the prefix grows to the full submitted sequence' fails. Decided: in handle_data every used_rwnd.fetch_add is
+    cut by the edge on which the TSN is not yet in the buffer (contains_key false / a vacant entry)."""
+    r = RuleResult("R01.15", "K1", "receive-window credit is charged once per buffered chunk, not once per arriving copy")
+    b = ctx.body(HD)
+    r.scope.append(HD)
+    adds = [bi for bi, t, args in core.atomic_sites(b, "used_rwnd", "fetch_add")]
+    r.need("used_rwnd charges in handle_data", len(adds), 1)
+
+    def absent(term, meaning, *_):
+        if term[0] == "call" and term[1].endswith("::contains_key") and mir.has_field(term[2][0], "received_queue") and meaning is False:
+            return True
+        if term[0] == "un" and term[1] == "Not" and term[2][0] == "call" and term[2][1].endswith("::contains_key") and \
+                mir.has_field(term[2], "received_queue") and meaning is True:
+            return True
+        if term[0] == "discr" and mir.has(term[1], lambda x: x[0] == "call" and x[1].endswith("::entry") and mir.has_field(x, "received_queue")) and meaning == "Vacant":
+            return True
+        # insert() returned None: the key was new
+        if term[0] == "discr" and mir.has(term[1], lambda x: x[0] == "call" and x[1].endswith("::insert") and mir.has_field(x, "received_queue")) and meaning == "None":
+            return True
+        return False
+    g = core.guard_edges(b, absent)
+    for bi in adds:
+        if g and core.k1(b, [bi], g)[bi] is None:
+            r.ok({"site": b.where(bi), "cut_by": "TSN not yet in the reorder buffer"})
+        else:
+            r.violate(HD, "rwnd:charged-per-copy", b.where(bi),
+                      "used_rwnd is charged for a chunk whether or not its TSN is already buffered: every duplicate of a buffered chunk leaks its "
+                      "length from the advertised window for good (credit is returned once, when the one buffered copy drains)")
+    return r
+
+
 def run(ctx):
-    return [r01_1(ctx), r01_2(ctx), r01_3(ctx), r01_4(ctx), r01_5(ctx), r01_6(ctx), r01_7(ctx), r01_8(ctx), r01_9(ctx), r01_10(ctx), r01_11(ctx), r01_12(ctx), r01_13(ctx), r01_14(ctx)]
+    return [r01_1(ctx), r01_2(ctx), r01_3(ctx), r01_4(ctx), r01_5(ctx), r01_6(ctx), r01_7(ctx), r01_8(ctx), r01_9(ctx), r01_10(ctx), r01_11(ctx), r01_12(ctx), r01_13(ctx), r01_14(ctx), r01_15(ctx)]
